@@ -37,6 +37,15 @@ def check(rep, ctx):
     R_TV = rep.rule("C02-tagged-default-value", "the constant a tagged field is elided against is the default the definition gives it",
                     floor=50, necessary_because="a value equal to the real default must be omitted and any other value written; "
                                                  "CurrentLeader(0, 0, '', 0) is not the default of UpdateRaftVoterResponse.current_leader")
+    R_M = rep.rule("C02-memo", "no function on the encode path is memoised on a value (only on types / bools / literals)", floor=0,
+                   necessary_because="memoisation is keyed by == and hash: 0.0 == -0.0 and 1 == True, but their encodings differ; the second "
+                                     "instance is written with the first one's bytes")
+    from .. import scan
+    for m in scan.memoised_functions(ctx, ["kio.serial._serialize", "kio.serial.writers", "kio.serial._implicit_defaults", "kio.serial._introspect"]):
+        rep.check(R_M, not m["bad_params"], construct=f"{m['module']}:{m['function']}", stmt=m["stmt"],
+                  message=f"memoised on parameters {m['bad_params']}: instances that compare equal but encode differently (0.0 / -0.0, 1 / True / "
+                          f"1.0, datetimes differing in fold) share one cached encoding", file=m["file"], line=m["line"])
+    rep.count(R_M, 1, instance="scan")
     R_P = rep.rule("C02-plan", "a writer plan can be derived for the class", floor=1600)
     n_tagged_paths = 0
     for key, cls, plan in W.classes():
